@@ -351,4 +351,51 @@ def reduce {C σ} [DecidableEq C] [Inhabited σ] [Inhabited C] (cfg : Cfg) (W : 
   let r2 := mainLoop cfg W dn orderOf fuel main (totalSize W.size x.disk + 2) r1
   runPasses cfg W dn orderOf fuel last r2
 
+/-! ### `--start-with-pass` and missing prerequisites
+
+`run_pass` begins with a gate: while `self.start_with_pass` is set, a call for a pass whose `str()` (= `repr()`, the pass
+key) differs returns at once; the first call for the named pass clears the option and runs normally.  The callers in
+`cvise.py` skip a pass whose `check_prerequisites()` fails *before* calling `run_pass`, so such a pass never clears the gate.
+`sw` is the option (`none`: not given, or already cleared); `avail` says which passes have their prerequisites. -/
+
+/-- `run_pass` with its gate: returns the result and what is left of the option -/
+def runPassG {C σ} [DecidableEq C] [Inhabited σ] [Inhabited C] (cfg : Cfg) (W : World C) (dn : Sched) (P : PassI C σ) (order : List Nat)
+    (fuel rid : Nat) (x : St C) (sw : Option Nat) : LRes C × Option Nat :=
+  match sw with
+  | none => (runPass cfg W dn P order fuel rid x, none)
+  | some n => if n = P.key then (runPass cfg W dn P order fuel rid x, none) else (.inl (x, rid), some n)
+
+/-- `_run_additional_passes` (and the `for` loop of `_run_main_passes`) with prerequisites and the gate -/
+def runPassesG {C σ} [DecidableEq C] [Inhabited σ] [Inhabited C] (cfg : Cfg) (W : World C) (dn : Sched) (orderOf : List C → List Nat) (fuel : Nat)
+    (avail : PassI C σ → Bool) : List (PassI C σ) → LRes C × Option Nat → LRes C × Option Nat
+  | [], acc => acc
+  | P :: ps, (acc, sw) =>
+    match acc with
+    | .inr e => (.inr e, sw)
+    | .inl (x, rid) =>
+      if avail P then runPassesG cfg W dn orderOf fuel avail ps (runPassG cfg W dn P (orderOf x.disk) fuel rid x sw)
+      else runPassesG cfg W dn orderOf fuel avail ps (.inl (x, rid), sw)
+
+def mainLoopG {C σ} [DecidableEq C] [Inhabited σ] [Inhabited C] (cfg : Cfg) (W : World C) (dn : Sched) (orderOf : List C → List Nat) (fuel : Nat)
+    (avail : PassI C σ → Bool) (passes : List (PassI C σ)) : Nat → LRes C × Option Nat → LRes C × Option Nat
+  | 0, acc => acc
+  | rounds+1, (acc, sw) =>
+    match acc with
+    | .inr e => (.inr e, sw)
+    | .inl (x, rid) =>
+      let before := totalSize W.size x.disk
+      if before = 0 then (.inl (x, rid), sw) else
+      match runPassesG cfg W dn orderOf fuel avail passes (.inl (x, rid), sw) with
+      | (.inr e, sw') => (.inr e, sw')
+      | (.inl (y, rid'), sw') =>
+        if totalSize W.size y.disk ≥ before then (.inl (y, rid'), sw')
+        else mainLoopG cfg W dn orderOf fuel avail passes rounds (.inl (y, rid'), sw')
+
+/-- `CVise.reduce` after the sanity check, with `--start-with-pass`, `skip_initial` and prerequisites -/
+def reduceG {C σ} [DecidableEq C] [Inhabited σ] [Inhabited C] (cfg : Cfg) (W : World C) (dn : Sched) (orderOf : List C → List Nat) (fuel : Nat)
+    (avail : PassI C σ → Bool) (skipInitial : Bool) (first main last : List (PassI C σ)) (x : St C) (sw : Option Nat) : LRes C × Option Nat :=
+  let r1 := if skipInitial then (.inl (x, 0), sw) else runPassesG cfg W dn orderOf fuel avail first (.inl (x, 0), sw)
+  let r2 := mainLoopG cfg W dn orderOf fuel avail main (totalSize W.size x.disk + 2) r1
+  runPassesG cfg W dn orderOf fuel avail last r2
+
 end Cvise.D
